@@ -249,6 +249,7 @@ class PydanticGrammar(BaseGrammar):
     @property
     def schema(self) -> dict[str, Schema]:
         """The dictionary representation of the schema."""
+        self.__rebuild_model()
         return self.__model.model_json_schema()
 
     # TODO: keep for backward compatibility but remove at some point since
